@@ -3,6 +3,8 @@
 package cl
 
 import (
+	"math/big"
+
 	"github.com/ohler55/slip"
 )
 
@@ -44,13 +46,12 @@ type LdbTest struct {
 func (f *LdbTest) Call(s *slip.Scope, args slip.List, depth int) slip.Object {
 	// Helper functions are defined in deposit-field.go.
 	slip.CheckArgCount(s, depth, f, args, 2, 2)
-	integer, _ := ToUnsignedByte(s, args[1], "integer", depth)
+	integer := integerArg(s, args[1], "integer", depth)
 	size, pos := byteSpecArg(s, args[0], depth)
 
-	for i := uint(0); i < uint(size); i++ {
-		if integer.GetBit(i + uint(pos)) {
-			return slip.True
-		}
+	var bi big.Int
+	if bi.And(bi.Rsh(integer, uint(pos)), byteMask(size)).Sign() != 0 {
+		return slip.True
 	}
 	return nil
 }
